@@ -76,7 +76,7 @@ def gen(prop, stream, tier, avoid):
             spec["aL"] = [[rng.pick([-2.0, 0.0, 1.0, 3.5]), rng.pick([0.5, 1.0, 2.0, 4.0])] for _ in range(nd_)]
             spec["knots"] = [shapes.affine_knots(kv, a, L) for kv, (a, L) in zip(spec["knots"], spec["aL"])]
         objs.append(spec)
-    nops = kn.pick([2, 3, 4, 5, 6, 8, 10, 12, 16])
+    nops = kn.pick([2, 3, 4, 5, 6, 8, 10, 12, 16] + ([24, 32] if tier == "thorough" else []))
     w_ins = kn.uniform(1.0, 3.0)
     w_read = kn.uniform(0.2, 1.0)
     w_rej = kn.uniform(0.0, 0.6) if prop == "C04" else 0.1
